@@ -362,7 +362,7 @@ fn seen_of<Rd>(r: &NsReader<Rd>, ev: &Event, resolved: Option<R>, attr: u8) -> S
 /// Runs one consumer history. `choices[k]` is what the consumer does at the k-th Start event it
 /// sees (ReadEvent/ReadResolved decide how *all* following events up to the next Start are read).
 /// Returns a description of the first disagreement with the model.
-fn run_history(input: &[u8], steps: &[Step], expand: bool, src: SrcKind, choices: &[Choice], late_skip: Option<usize>, nstarts_out: &mut usize) -> Result<u64, String> {
+fn run_history(input: &[u8], steps: &[Step], expand: bool, src: SrcKind, choices: &[Choice], late_skip: Option<(usize, bool)>, nstarts_out: &mut usize) -> Result<u64, String> {
     let script = match src {
         SrcKind::Buf(p) | SrcKind::Async(p) => Script::pieces(p),
         SrcKind::Slice => Script::whole(),
@@ -478,9 +478,12 @@ fn run_history(input: &[u8], steps: &[Step], expand: bool, src: SrcKind, choices
                     Choice::ReadToEnd | Choice::ReadText => skip = Some((cur, choice)),
                 }
             }
+            // the late skip uses read_to_end or (slice source) read_text
+            let late_choice = if late_skip.map_or(false, |l| l.1) { Choice::ReadText } else { Choice::ReadToEnd };
+            let late_skip = late_skip.map(|l| l.0);
             if skip.is_none() && late_skip == Some(cur) {
                 if let Some(enc) = step.enclosing_after {
-                    skip = Some((enc, Choice::ReadToEnd));
+                    skip = Some((enc, late_choice));
                 }
             }
             let mut pending = skip;
@@ -511,7 +514,7 @@ fn run_history(input: &[u8], steps: &[Step], expand: bool, src: SrcKind, choices
                 // two skips in a row: the element just skipped, then the rest of its parent
                 if !second && late_skip == Some(cur) && start_idx == cur {
                     if let Some(enc) = steps[target.end_idx].enclosing_after {
-                        pending = Some((enc, Choice::ReadToEnd));
+                        pending = Some((enc, late_choice));
                         second = true;
                     }
                 }
@@ -573,20 +576,25 @@ fn walk(acc: &mut Acc, order: (u32, u64), input: &[u8], steps: &[Step], expand: 
                         if !useful {
                             continue;
                         }
-                        let mut n2 = 0;
-                        acc.evaluations += 1;
-                        match run_history(input, steps, expand, src, &prefix, Some(p), &mut n2) {
-                            Ok(calls) => {
-                                acc.transitions += calls;
-                                acc.traces += 1;
-                                acc.nt_count += 1;
-                                acc.count("late_skip_histories", 1);
+                        for late_text in [false, true] {
+                            if late_text && !matches!(src, SrcKind::Slice) {
+                                continue;
                             }
-                            Err(what) => acc.violation(
-                                order,
-                                format!("document {:?} expand_empty={} source {:?} history {:?} + skip of the enclosing element after event #{}: {}", lossy(input), expand, src, prefix, p, what),
-                                json!({"doc": doc_json(), "input": bytes_json(input), "expand": expand, "source": format!("{:?}", src), "history": prefix.iter().map(|c| format!("{:?}", c)).collect::<Vec<_>>(), "late_skip": p}),
-                            ),
+                            let mut n2 = 0;
+                            acc.evaluations += 1;
+                            match run_history(input, steps, expand, src, &prefix, Some((p, late_text)), &mut n2) {
+                                Ok(calls) => {
+                                    acc.transitions += calls;
+                                    acc.traces += 1;
+                                    acc.nt_count += 1;
+                                    acc.count("late_skip_histories", 1);
+                                }
+                                Err(what) => acc.violation(
+                                    order,
+                                    format!("document {:?} expand_empty={} source {:?} history {:?} + {} of the enclosing element after event #{}: {}", lossy(input), expand, src, prefix, if late_text { "read_text" } else { "read_to_end" }, p, what),
+                                    json!({"doc": doc_json(), "input": bytes_json(input), "expand": expand, "source": format!("{:?}", src), "history": prefix.iter().map(|c| format!("{:?}", c)).collect::<Vec<_>>(), "late_skip": p, "late_text": late_text}),
+                                ),
+                            }
                         }
                     }
                 }
@@ -691,7 +699,7 @@ pub fn run(ctx: &Ctx) {
          element optionally has xsi:nil (xsi declared in place, or prefix i bound on the root); leaves written <e/>, <e></e> or \
          <e>t</e>. For every document x expand_empty_elements on/off x source (slice; buffered pieces 1 and whole; async pieces 1) \
          EVERY consumer history is walked: at each Start the consumer picks read_event / read_resolved_event (mode for the \
-         following events) / read_to_end / read_text (slice only); and, on histories that only read, additionally skips the REST of the innermost open \
+         following events) / read_to_end / read_text (slice only); and, on histories that only read, additionally skips (read_to_end, and read_text on the slice source) the REST of the innermost open \
          element after every single child event (End / Empty / Text), and histories with skips additionally skip the rest of the parent \
          immediately after a skipped element (two skips in a row). After every call the observable namespace state \
          (resolve_element and resolve_attribute of six probe names n, p:n, q:n, xml:n, xmlns:n, z:n; prefixes() as a map; the \
@@ -793,7 +801,7 @@ pub fn replay(case: &Value) -> Result<(), String> {
     let mut steps = Vec::new();
     flatten(&doc, &mut Vec::new(), true, root_i, expand, &mut steps);
     link_enclosing(&mut steps);
-    let late = case.get("late_skip").and_then(|l| l.as_u64()).map(|l| l as usize);
+    let late = case.get("late_skip").and_then(|l| l.as_u64()).map(|l| (l as usize, case.get("late_text").and_then(|t| t.as_bool()).unwrap_or(false)));
     println!("document {:?} expand={} source {:?} history {:?} late skip after event {:?}", lossy(&input), expand, src, hist, late);
     let mut n = 0;
     run_history(&input, &steps, expand, src, &hist, late, &mut n).map(|_| ())
